@@ -108,7 +108,7 @@ func propC05(reps int) func(model.Case) hh.Verdict {
 					return hh.Fail("catching node n%d at %q (caught=%v): destination %s, expected %s (run %d)", co.Node, co.Path, co.Caught, g, w, r)
 				}
 			}
-			if !model.EqualIss(got, spec.Issues) {
+			if !model.EqualIssSpec(got, spec.Issues) {
 				return hh.Fail("issues differ from the specification (run %d): got %s want %s", r, fmtIss(got), fmtIss(spec.Issues))
 			}
 			if catchHasIssuePath(c.Root) {
